@@ -10,6 +10,7 @@ use vcore::Session;
 pub static EXCLUDE_FUSION_POLL: std::sync::atomic::AtomicBool = std::sync::atomic::AtomicBool::new(false);
 
 fn main() {
+    netlab::raise_nofile();
     let mut s = Session::new();
     if s.known_signatures("C14").iter().any(|k| k.contains("empty-item-before-eof/poll")) {
         EXCLUDE_FUSION_POLL.store(true, std::sync::atomic::Ordering::Relaxed);
